@@ -181,12 +181,13 @@ class Rx:
     a virtual clock and a frozen event loop; the RTCP timer is fired by the driver."""
 
     PT = 96
+    PT_RTX = 97
 
-    def __init__(self, clockrate):
+    def __init__(self, clockrate, rtx_map=None):
         import asyncio
         import aiortc.rtcrtpreceiver as R
         from aiortc.rtcrtpparameters import (RTCRtpCodecParameters, RTCRtpDecodingParameters,
-                                             RTCRtpReceiveParameters)
+                                             RTCRtpReceiveParameters, RTCRtpRtxParameters)
         R.time = _CLOCK
         R.decoder_worker = _noop_decoder
         self.R = R
@@ -199,8 +200,14 @@ class Rx:
         self.rx._set_rtcp_ssrc(0x0BADCAFE)
         codec = RTCRtpCodecParameters(mimeType="audio/x-verif", clockRate=clockrate, channels=1,
                                       payloadType=self.PT)
-        self.loop.run(self.rx.receive(RTCRtpReceiveParameters(
-            codecs=[codec], encodings=[RTCRtpDecodingParameters(ssrc=1, payloadType=self.PT)])))
+        # (a retransmission stream is a stream of its own for the statistics: its packets arrive on
+        #  the RTX SSRC with the RTX payload type and are unwrapped into the media stream afterwards)
+        rtxc = RTCRtpCodecParameters(mimeType="audio/rtx", clockRate=clockrate, payloadType=self.PT_RTX,
+                                     parameters={"apt": self.PT})
+        enc = [RTCRtpDecodingParameters(ssrc=1, payloadType=self.PT)]
+        for rtx_ssrc, media_ssrc in sorted((rtx_map or {}).items()):
+            enc.append(RTCRtpDecodingParameters(ssrc=media_ssrc, payloadType=self.PT, rtx=RTCRtpRtxParameters(ssrc=rtx_ssrc)))
+        self.loop.run(self.rx.receive(RTCRtpReceiveParameters(codecs=[codec, rtxc], encodings=enc)))
         self.failed = False
         self.error = None
 
@@ -216,9 +223,13 @@ class Rx:
         if int(_CLOCK.now * self.clockrate) != ticks:
             raise T.MachineryError("clock shim cannot represent arrival tick %d" % ticks)
 
-    def add(self, ssrc, seq, ts):
+    def add(self, ssrc, seq, ts, osn=None):
         from aiortc import rtp
-        pkt = rtp.RtpPacket(payload_type=self.PT, ssrc=ssrc, sequence_number=seq, timestamp=ts, payload=b"")
+        if osn is None:
+            pkt = rtp.RtpPacket(payload_type=self.PT, ssrc=ssrc, sequence_number=seq, timestamp=ts, payload=b"")
+        else:       # a retransmission: RTX payload type, original sequence number in front of the payload
+            pkt = rtp.RtpPacket(payload_type=self.PT_RTX, ssrc=ssrc, sequence_number=seq, timestamp=ts,
+                                payload=bytes([(osn >> 8) & 0xFF, osn & 0xFF]) + b"x")
         pkt = rtp.RtpPacket.parse(pkt.serialize())
         self.loop.run(self.rx._handle_rtp_packet(pkt, arrival_time_ms=int(_CLOCK.now * 1000)))
 
@@ -280,7 +291,8 @@ def execute(hist, internals=None):
     clock = hist["clock"]
     a0 = int(hist["a0"])
     streams = hist["streams"]
-    rx = Rx(clock)
+    rtx_map = {st["ssrc"]: streams[st["rtx_of"] - 1]["ssrc"] for st in streams if st.get("rtx_of")}
+    rx = Rx(clock, rtx_map)
     steps = []
     folded = 0
     prev_a = None
@@ -302,7 +314,10 @@ def execute(hist, internals=None):
                 if abs(t) >= SPAN or abs(folded) >= SPAN:
                     raise T.MachineryError("history exceeds the span the trace format can carry")
                 rx.set_arrival(a0 + a)
-                rx.add(st["ssrc"], seq, ts)
+                if st.get("rtx_of"):
+                    rx.add(st["ssrc"], seq, ts, osn=(streams[st["rtx_of"] - 1]["seq0"] + x) % 65536)
+                else:
+                    rx.add(st["ssrc"], seq, ts)
                 ss = rx.stream(st["ssrc"])
                 recv = getattr(ss, "packets_received", -1) if ss is not None else 0
                 steps.append({"op": "add", "s": s, "seq": seq, "t": t + OFF, "a": folded + OFF, "big": big,
@@ -732,9 +747,13 @@ def run():
             for i in range(nrand):
                 klass = "longloss" if i % 40 == 7 else classes[i % len(classes)]
                 h = gen_history(r, klass)
+                if len(h["streams"]) >= 2 and i % 2 == 0:
+                    # the last stream is the retransmission (RTX) stream of the first: still a stream of
+                    # its own for the statistics, and the media stream must not count its packets
+                    h["streams"][-1]["rtx_of"] = 1
                 tr = execute(h)
                 tr["id"] = len(items) + 1
-                tr["src"] = "random-" + klass
+                tr["src"] = "random-" + klass + ("+rtx" if h["streams"][-1].get("rtx_of") else "")
                 items.append((tr, h))
 
             phase("random_histories")
